@@ -891,66 +891,147 @@ func ruleSetIfAbsent(w *World, r *Report) {
 func ruleTimeoutUnset(w *World, r *Report) {
 	r.Rule("TIMEOUT-UNSET", "in RunJavascript the system default replaces the location's JavaScript timeout only on the edge of an equality test with zero (unset); a negative value means `no timeout` (documented on Control.JavascriptTimeout and tested as `0 <= timeout` before the watchdog is armed) and must survive", 1)
 	fn := w.Func("core", "RunJavascript")
-	// the value that reads SystemParameters.DefaultJavascriptTimeout
-	isDefault := func(v ssa.Value) bool {
-		n, f, _, ok := loadedField(v)
-		return ok && n.Obj().Name() == "SystemParams" && f == "DefaultJavascriptTimeout" || ok && f == "DefaultJavascriptTimeout"
+	// where the timeout is chosen: RunJavascript itself, or a helper of core it calls
+	scope := []*ssa.Function{fn}
+	allInstrs(fn, func(in ssa.Instruction) {
+		if c := callOf(in); c != nil && c.StaticCallee() != nil && w.RelPkg(c.StaticCallee()) == "core" && len(c.StaticCallee().Blocks) > 0 && c.StaticCallee() != fn {
+			scope = append(scope, c.StaticCallee())
+		}
+	})
+	// a value that is the location's own setting, as it is (conversions aside)
+	isZero := func(v ssa.Value) bool {
+		c, ok := v.(*ssa.Const)
+		return ok && c.Value != nil && c.Value.Kind() == constant.Int && c.Int64() == 0
+	}
+	// ... or a variable that holds it, or zero while nothing was found (`var timeout; if c != nil { timeout = c.X }`),
+	// but nothing else (not the variable after the default went into it)
+	var own func(v ssa.Value, d int) (bool, bool) // (only own-or-zero, some own)
+	own = func(v ssa.Value, d int) (bool, bool) {
+		if d > 8 {
+			return false, false
+		}
+		switch x := v.(type) {
+		case *ssa.Convert:
+			return own(x.X, d+1)
+		case *ssa.ChangeType:
+			return own(x.X, d+1)
+		case *ssa.Const:
+			return isZero(x), false
+		case *ssa.Phi:
+			all, some := true, false
+			for _, e := range x.Edges {
+				a, s := own(e, d+1)
+				all = all && a
+				some = some || s
+			}
+			return all, some
+		case *ssa.UnOp:
+			if _, f, _, ok := loadedField(v); ok {
+				return f == "JavascriptTimeout", f == "JavascriptTimeout"
+			}
+			// the variable lives in a slot when closures capture it: what was stored into it before this load
+			if al, isAl := x.X.(*ssa.Alloc); isAl && x.Op == token.MUL {
+				all, some := true, false
+				for _, ref := range *al.Referrers() {
+					st, isSt := ref.(*ssa.Store)
+					if !isSt || st.Addr != ssa.Value(al) || !reachable(x.Parent(), st, x) {
+						continue
+					}
+					a, sm := own(st.Val, d+1)
+					all = all && a
+					some = some || sm
+				}
+				return all, some
+			}
+		}
+		return false, false
+	}
+	isOwn := func(v ssa.Value) bool {
+		all, some := own(v, 0)
+		return all && some
 	}
 	found := 0
 	bad := ""
-	allInstrs(fn, func(in ssa.Instruction) {
-		var preds []*ssa.BasicBlock
-		switch x := in.(type) {
-		case *ssa.Phi:
-			for i, e := range x.Edges {
-				if isDefault(e) {
-					preds = append(preds, x.Block().Preds[i])
-				}
+	where := fn
+	for _, g := range scope {
+		allInstrs(g, func(in ssa.Instruction) {
+			ifi, ok := in.(*ssa.If)
+			if !ok {
+				return
 			}
-		case *ssa.Store:
-			// the variable lives in a slot when closures capture it
-			if _, isAlloc := x.Addr.(*ssa.Alloc); isAlloc && isDefault(x.Val) {
-				preds = append(preds, x.Block())
+			cmp, ok := ifi.Cond.(*ssa.BinOp)
+			if !ok {
+				return
 			}
-		}
-		for _, pred := range preds {
+			var other ssa.Value
+			switch {
+			case isOwn(cmp.X):
+				other = cmp.Y
+			case isOwn(cmp.Y):
+				other = cmp.X
+			default:
+				return
+			}
+			if !isZero(other) {
+				return
+			}
 			found++
-			// the branch that selects this assignment: the closest dominating If (the block itself is the arm)
-			start := pred
-			if len(pred.Preds) == 1 {
-				start = pred.Preds[0]
+			where = g
+			if cmp.Op != token.EQL && cmp.Op != token.NEQ {
+				bad = w.PosOf(ifi)
 			}
-			for q := start; q != nil; q = q.Idom() {
-				if len(q.Instrs) == 0 {
-					continue
+		})
+	}
+	// default clause: what stands in for an unset timeout is read from SystemParameters when the script runs — a copy
+	// kept elsewhere (a package variable that a hook refreshes) misses every update that does not go through the hook
+	isDefault := func(v ssa.Value) bool {
+		_, f, _, ok := loadedField(v)
+		return ok && f == "DefaultJavascriptTimeout"
+	}
+	stale := ""
+	for _, g := range scope {
+		allInstrs(g, func(in ssa.Instruction) {
+			var vals []ssa.Value
+			switch x := in.(type) {
+			case *ssa.Store:
+				if _, isAlloc := x.Addr.(*ssa.Alloc); !isAlloc {
+					return
 				}
-				ifi, ok := q.Instrs[len(q.Instrs)-1].(*ssa.If)
-				if !ok {
-					continue
+				if b, isB := x.Val.Type().Underlying().(*types.Basic); !isB || b.Kind() != types.Int64 {
+					return
 				}
-				cmp, ok := ifi.Cond.(*ssa.BinOp)
-				if !ok {
-					break
+				if n, ok := x.Val.Type().(*types.Named); !ok || n.Obj().Name() != "Duration" {
+					return
 				}
-				isZero := func(v ssa.Value) bool {
-					c, ok := v.(*ssa.Const)
-					return ok && c.Value != nil && c.Int64() == 0
+				vals = append(vals, x.Val)
+			case *ssa.Phi:
+				if n, ok := x.Type().(*types.Named); !ok || n.Obj().Name() != "Duration" {
+					return
 				}
-				if cmp.Op != token.EQL || !(isZero(cmp.X) || isZero(cmp.Y)) {
-					bad = w.PosOf(ifi)
-				}
-				break
+				vals = append(vals, x.Edges...)
+			default:
+				return
 			}
-		}
-	})
+			for _, v := range vals {
+				if u, ok := v.(*ssa.UnOp); ok && u.Op == token.MUL {
+					if _, isGlobal := u.X.(*ssa.Global); isGlobal && !isDefault(v) {
+						stale = w.PosOf(in)
+					}
+				}
+			}
+		})
+	}
 	key := "fn=" + fname(fn)
+	if stale != "" && bad == "" {
+		r.violation("TIMEOUT-UNSET", key+" default", stale, "the timeout of a script is taken from a package variable, not from SystemParameters.DefaultJavascriptTimeout: a copy of the default misses every update of the parameters that does not refresh it")
+	}
 	switch {
 	case found == 0:
-		r.violation("TIMEOUT-UNSET", key, w.Pos(fn.Pos()), "cannot find where the system default timeout is selected (shape changed)")
+		r.exempt("TIMEOUT-UNSET", key, w.Pos(fn.Pos()), "no test of the location's JavascriptTimeout against zero found in RunJavascript or a helper it calls: shape not recognised, not decided")
 	case bad != "":
-		r.violation("TIMEOUT-UNSET", key, bad, "the default timeout is selected by a test other than `== 0`: a negative (disabled) location timeout is overridden")
+		r.violation("TIMEOUT-UNSET", key, bad, "whether the location's own timeout applies is decided by an ordering test against zero: a negative (disabled) location timeout is taken for `not set` and overridden by the system default")
 	default:
-		r.ok("TIMEOUT-UNSET", key, w.Pos(fn.Pos()), "default only for an unset timeout")
+		r.ok("TIMEOUT-UNSET", key, w.Pos(where.Pos()), "the location's timeout applies whenever it is not zero (negative: no timeout)")
 	}
 }
 
@@ -9176,5 +9257,71 @@ func ruleReqDecodeStrict(w *World, r *Report) {
 		r.violation("REQ-DECODE-STRICT", "pkg=service fresh", w.PosOf(pooled), "request state is drawn from a sync.Pool: what a refused request left in it is the next request's parameters")
 	} else {
 		r.ok("REQ-DECODE-STRICT", "pkg=service fresh", "", "no request state is pooled")
+	}
+}
+
+// LOOPVAR-GO (C16, C04): a goroutine started in a loop works on its own iteration's value.
+func ruleLoopvarGo(prop string) ruleFn {
+	return func(w *World, r *Report) {
+		r.Rule("LOOPVAR-GO", "rulio's go.mod says `go 1.14`: a `for` loop has one variable for all its iterations.  A function literal that is started with `go` inside a loop and refers to the loop's variable (instead of taking it as a parameter) sees whatever the variable holds when the goroutine gets to run — usually the last element: of several cron jobs that are due at the same tick the last one runs k times and the others never; of a rule's actions the last one runs for all.  No `go` statement in a loop binds a variable that is assigned in the loop and allocated outside it", 2)
+		n := 0
+		for _, fn := range w.Funcs {
+			if !w.IsRulio(fn) || isTestFile(w, fn) || len(fn.Blocks) == 0 || strings.HasPrefix(w.RelPkg(fn), "tools") || strings.HasPrefix(w.RelPkg(fn), "examples") {
+				continue // (the engine and its services; tools/sim has one, in a load generator)
+			}
+			var loops []*natLoop
+			allInstrs(fn, func(in ssa.Instruction) {
+				g, ok := in.(*ssa.Go)
+				if !ok {
+					return
+				}
+				mc, ok := g.Call.Value.(*ssa.MakeClosure)
+				if !ok {
+					return
+				}
+				if loops == nil {
+					loops = naturalLoops(fn)
+				}
+				var in_ []*natLoop
+				for _, l := range loops {
+					if l.Body[in.Block()] {
+						in_ = append(in_, l)
+					}
+				}
+				if len(in_) == 0 {
+					return
+				}
+				n++
+				key := "go in " + fname(fn) + " -> " + fname(mc.Fn.(*ssa.Function))
+				bad := ""
+				for _, b := range mc.Bindings {
+					al, ok := b.(*ssa.Alloc)
+					if !ok {
+						continue
+					}
+					for _, l := range in_ {
+						if l.Body[al.Block()] {
+							continue // allocated per iteration
+						}
+						for _, ref := range *al.Referrers() {
+							if st, ok := ref.(*ssa.Store); ok && st.Addr == ssa.Value(al) && l.Body[st.Block()] {
+								bad = al.Comment
+								if bad == "" {
+									bad = al.Name()
+								}
+							}
+						}
+					}
+				}
+				if bad != "" {
+					r.violation("LOOPVAR-GO", key, w.PosOf(in), "the goroutine refers to `"+bad+"`, which the loop assigns on every iteration: all goroutines of the loop see the value of a later iteration")
+				} else {
+					r.ok("LOOPVAR-GO", key, w.PosOf(in), "the goroutine binds nothing that the loop reassigns")
+				}
+			})
+		}
+		if n == 0 {
+			r.exempt("LOOPVAR-GO", "module", "", "no `go` statement with a function literal inside a loop: not decided")
+		}
 	}
 }
